@@ -439,6 +439,9 @@ def _shard_real(shard, seed, tier):
 
     part = core.Partial()
     for stype in shard:
+        if not deploy.supported({"drop": True}):
+            part.count("deploy_mode_not_possible_here")
+            continue
         spec = {"t": {"f1.txt": b"one\n", "m2.txt": b"two\n", "d": {"inner.txt": b"i\n"}, "h.html": worlds.HTML,
                       "locked": {"inner.txt": b"x\n", "gophermap": b"never readable\n"}, "listonly": {"inner.txt": b"y\n"}, "noread.txt": b"secret\n", "znoread.html": worlds.HTML,
                       "noread.mbox": worlds.MBOX, "gmdir": {"gophermap": b"1Up\t..\n", "x.txt": b"x\n"}, "mdlike": {"cur": {}, "new": {}, "tmp": {}}}}
